@@ -97,6 +97,49 @@ def d1(ctx, prog):
     ctx.check(n_restore >= 1, 'C03-D1', key + ' present', 'compute() never restores the word dimensions of the data', 'a restoring path exists', comp.where())
 
 
+def d5(ctx, prog):
+    """dimensional homogeneity: the accumulators get their dimensions from the update side (ex: u n, ex2: u^2 n, ey: v n, exy: u v n,
+    count: n); every sum / difference in _compute combines equal dimensions; the correlation returned is dimensionless and does not
+    scale with the number of traces (u^0 v^0 n^0); the DPA result is a difference of means (u^1 n^0, data being bits)."""
+    from . import dims
+    from .. import units
+    ctx.rule('C03-D5', 'dimensional analysis of accumulate-then-compute: accumulator dimensions derived from _update (u = trace unit, v = data unit, n = trace count); every +/- in '
+                       '_compute homogeneous; CPA result u^0 v^0 n^0 (scale free and invariant under duplication of the data set), DPA result u^1 n^0')
+    n = 0
+    cases = [('scared.distinguishers.cpa', 'CPADistinguisherMixin', {'u': 1, 'v': 1}, {}, 'a correlation'),
+             ('scared.distinguishers.cpa', 'CPAAlternativeDistinguisherMixin', {'u': 1, 'v': 1}, {}, 'a correlation'),
+             ('scared.distinguishers.dpa', 'DPADistinguisherMixin', {'u': 1, 'v': 0}, {'u': 1}, 'a difference of means')]
+    for modname, cname, seed, want, what in cases:
+        ci = prog.need_class(modname, cname)
+        upd, comp = prog.resolve_method(ci, '_update'), prog.resolve_method(ci, '_compute')
+        if upd is None or comp is None:
+            raise AnalysisError(f'{cname}: _update/_compute not found')
+        tp, dp = upd.params[1], upd.params[2]
+        contrib, xu = dims.contributions(prog, upd, {tp: dims.U(u=seed['u']), dp: dims.U(v=seed['v'])}, {tp, dp})
+        dims.report_mismatches(ctx, 'C03-D5', upd, xu)
+        attrs = dict(contrib)
+        attrs['processed_traces'] = dims.U(n=1)
+        unknown = sorted(a for a, d in attrs.items() if d is units.TOP)
+        key = f'{ci.key}::dimensions'
+        if unknown or not contrib:
+            ctx.undecided('C03-D5', key, f'dimensions of the accumulators {unknown or "(none found)"} not derivable from {upd.qualname}', upd.where())
+            continue
+        xc = units.Units(comp, attrs=attrs, prog=prog).run()
+        n += 1 + len(contrib)
+        nm = dims.report_mismatches(ctx, 'C03-D5', comp, xc)
+        rets = [d for d, node in xc.returns]
+        if not rets or any(d is units.TOP for d in rets):
+            if not nm:
+                ctx.undecided('C03-D5', key, f'dimension of the value returned by {comp.qualname} not derivable', comp.where())
+            continue
+        wantd = dims.U(**want)
+        bad = [d for d in rets if d != wantd and d != units.CONST]
+        ctx.check(not bad, 'C03-D5', key, f'{comp.qualname} returns a value of dimension {units.show(bad[0]) if bad else ""}; {what} has dimension {units.show(wantd)} '
+                  f'(accumulators: {", ".join(f"{a}: {units.show(d)}" for a, d in sorted(attrs.items()))})',
+                  f'result dimension {units.show(wantd)}; accumulators {", ".join(f"{a}: {units.show(d)}" for a, d in sorted(attrs.items()))}', comp.where())
+    ctx.floor('dimension obligations (CPA/DPA)', n, 12)
+
+
 def run(ctx, prog):
     ctx.rule('C03-D1', 'update flattens data to (n,-1) and remembers the shape; compute restores origin_shape[1:] + (-1,) when there was more than one word dimension')
     ctx.rule('C03-D2', 'every CPA/DPA _compute depending on a division maps inf -> NaN before returning')
@@ -132,5 +175,6 @@ def run(ctx, prog):
             if not res:
                 ctx.ok('C03-D4', f'{f.key}::precision', 'no reduction or product runs on unconverted traces', f.where())
     ctx.floor('CPA/DPA accumulation functions under precision discipline', n4, 2)
+    d5(ctx, prog)
     n3 = axes.check_family(ctx, prog, 'C03-D3', ['scared.distinguishers.cpa', 'scared.distinguishers.dpa'])
     ctx.floor('axis obligations (CPA/DPA)', n3, 20)
